@@ -43,6 +43,29 @@ AOR = {ast.Add: [ast.Sub], ast.Sub: [ast.Add], ast.Mult: [ast.FloorDiv], ast.Flo
        ast.BitXor: [ast.BitOr], ast.BitAnd: [ast.BitOr], ast.BitOr: [ast.BitAnd], ast.LShift: [ast.RShift], ast.RShift: [ast.LShift]}
 
 
+STR_TABLE = {'big': ['little'], 'little': ['big'], '>I': ['<I', '>H'], '>B': ['>b'], 'rb': ['r'], 'wb': ['w', 'ab'], 'w': ['a'],
+             'cp500': ['cp037', 'latin1'], 'cp037': ['cp500'], 'latin1': ['cp500', 'ascii'], 'latin_1': ['cp500'], 'ascii': ['latin1'],
+             'utf8': ['latin1'], 'PDS': ['ICC'], 'ICC': ['PDS'], 'PAN': ['PAN-PREFIX'], 'PAN-PREFIX': ['PAN'], 'DE43': ['PDS'],
+             'LLVAR': ['LLLVAR'], 'LLLVAR': ['LLVAR'], 'FIXED': ['LLVAR'], 'field_length': ['field_type'], 'ebcdic': ['ascii'],
+             'vbs': ['1014'], '1014': ['vbs'], 'ignore': ['raise'], '\n': ['\r\n'], '': ['x']}
+
+
+def str_variants(v):
+    if isinstance(v, bytes):
+        if len(v) == 1:
+            return [bytes([v[0] ^ 0x60])]
+        if v == b'':
+            return [b' ']
+        return []
+    if v in STR_TABLE:
+        return STR_TABLE[v]
+    if len(v) == 1:
+        return [{'0': ' ', ' ': '0', '*': '0', 'F': 'A', 'A': 'F', 'x': 'X', 'X': 'x', '<': '>', '>': '<', 'f': 'a'}.get(v, 'z' if v != 'z' else 'y')]
+    if v.startswith('%') and len(v) <= 14:
+        return [v.replace('%y', '%Y') if '%y' in v else v.replace('%m', '%d', 1)]
+    return []
+
+
 def enumerate_mutants(tree, ops):
     """yield (op, lineno, funcname, description, apply(tree_copy_node_map))  - mutants are identified by node index"""
     nodes = list(ast.walk(tree))
@@ -64,6 +87,13 @@ def enumerate_mutants(tree, ops):
             n = parents[n]
             if isinstance(n, ast.If) and isinstance(n.test, ast.Compare) and isinstance(n.test.left, ast.Name) and n.test.left.id == '__name__':
                 return True
+        return False
+    def in_log(n):
+        while n in parents:
+            n = parents[n]
+            if isinstance(n, ast.stmt):
+                return is_logging(n) or isinstance(n, ast.Raise) or (isinstance(n, ast.Expr) and isinstance(n.value, ast.Call)
+                                                                     and isinstance(n.value.func, ast.Name) and n.value.func.id == 'print')
         return False
     for idx, n in enumerate(nodes):
         if in_main(n) or not func_of(n):
@@ -88,6 +118,19 @@ def enumerate_mutants(tree, ops):
         if 'crp' in ops and isinstance(n, ast.Constant) and type(n.value) is int and not isinstance(parents.get(n), ast.Expr):
             for d in (1, -1):
                 yield ('crp', n.lineno, fn, f'{ast.unparse(parents.get(n))[:70]}  :  {n.value} -> {n.value + d}', idx, n.value + d)
+        if 'slc' in ops and isinstance(n, ast.Slice) and not in_log(n):
+            if n.lower is not None:
+                yield ('slc', parents[n].lineno, fn, f'{ast.unparse(parents[n])[:70]}  :  drop lower bound', idx, 'lower')
+            if n.upper is not None:
+                yield ('slc', parents[n].lineno, fn, f'{ast.unparse(parents[n])[:70]}  :  drop upper bound', idx, 'upper')
+        if 'uoi' in ops and isinstance(n, ast.UnaryOp) and isinstance(n.op, ast.Not):
+            yield ('uoi', n.lineno, fn, f'{ast.unparse(n)[:80]}  :  drop not', idx, None)
+        if 'scr' in ops and isinstance(n, ast.Constant) and isinstance(n.value, (str, bytes)) and not in_log(n) \
+                and not isinstance(parents.get(n), (ast.Expr, ast.JoinedStr, ast.FormattedValue)):
+            for new in str_variants(n.value):
+                yield ('scr', n.lineno, fn, f'{ast.unparse(parents.get(n))[:60]}  :  {n.value!r} -> {new!r}', idx, new)
+        if 'arg' in ops and isinstance(n, ast.Call) and len(n.args) >= 2 and not in_log(n) and not any(isinstance(a, ast.Starred) for a in n.args[:2]):
+            yield ('arg', n.lineno, fn, f'{ast.unparse(n)[:80]}  :  swap first two arguments', idx, None)
         if 'neg' in ops and isinstance(n, (ast.If, ast.While)) :
             yield ('neg', n.lineno, fn, f'negate: {ast.unparse(n.test)[:80]}', idx, None)
         if 'bop' in ops and isinstance(n, ast.BoolOp):
@@ -113,6 +156,19 @@ def apply_mutant(src, op, idx, arg):
         n.value = arg
     elif op == 'neg':
         n.test = ast.UnaryOp(op=ast.Not(), operand=n.test)
+    elif op == 'slc':
+        setattr(n, arg, None)
+    elif op == 'uoi':
+        for par in nodes:
+            for field, val in ast.iter_fields(par):
+                if val is n:
+                    setattr(par, field, n.operand)
+                elif isinstance(val, list) and n in val:
+                    val[val.index(n)] = n.operand
+    elif op == 'scr':
+        n.value = arg
+    elif op == 'arg':
+        n.args[0], n.args[1] = n.args[1], n.args[0]
     elif op == 'bop':
         n.op = ast.Or() if isinstance(n.op, ast.And) else ast.And()
     ast.fix_missing_locations(tree)
